@@ -1725,8 +1725,10 @@ size_t rtosc_scan_arg_val(const char* src,
             {
                 last_bufsize = *bufsize;
 
+                // (the look-behind of ranges counts cells, not elements)
                 src += rtosc_scan_arg_val(src, arg, nargs,
-                                          buffer_for_strings, bufsize, i, 1);
+                                          buffer_for_strings, bufsize,
+                                          num_read, 1);
                 arrtype = arg->type;
                 if(arrtype == '-')
                     arrtype = rtosc_av_rep_has_delta(arg) ? arg[2].type : arg[1].type;
